@@ -21,7 +21,7 @@ For each change i (1..{n}) deliver, in {wt}/out/{pid}_<i>/ :
 Rules / practical notes:
   * Python: /venv/bin/python (has numpy, xarray, numba, rasterio, pytest, pytest-xdist...). The package is installed in editable mode pointing at /repo, so ALWAYS run with `cd {wt} && PYTHONPATH={wt} /venv/bin/python ...` and check once that `import pandora; print(pandora.__file__)` points into {wt}.
   * The existing tests that must still pass WITH each change: `cd {wt} && PYTHONPATH={wt} /venv/bin/python -m pytest -q -p no:cacheprovider -x --timeout=900 -n 4 tests --deselect tests/test_notebooks.py --deselect tests/test_pandora.py::TestPandora::test_dataset_image` (the deselected ones fail on the original too; the full run takes ~3-6 min; while iterating run only the relevant test files first, then the full suite once per final change). If a test fails with your change, change the mutation, never the tests.
-  * Verify yourself, for each change: (a) demo.py exits 0 on the original tree (git stash or `git checkout -- pandora` to get it back), (b) demo.py exits non-zero with the change applied, (c) the test suite passes with the change applied. Report honestly if something could not be verified.
+  * Verify yourself, for each change: (a) demo.py exits 0 on the original tree (`git checkout -- pandora` to get it back, `git apply` your saved patch.diff to re-apply; NEVER use `git stash`: the stash is shared between worktrees and other agents work concurrently), (b) demo.py exits non-zero with the change applied, (c) the test suite passes with the change applied. Report honestly if something could not be verified.
   * Leave the worktree with NO change applied at the end (`git checkout -- pandora`), the deliverables only under {wt}/out/.
   * No network. Do not install anything. Do not run long jobs in parallel with more than 4 processes.
 
